@@ -60,7 +60,7 @@ PROPS = {
                 slices=[S("ids", 300, 5000, ["corr", "seq_gapless", "doc_refs_unique", "no_panic"]), S("hashgrid", 1, 4, ["corr", "hash_unique"])],
                 assumptions=REPLICA_ASSUMPTIONS),
     "C05": dict(lean=["Orda.Props.C05"], rule="non-trivial: ≥2 clients pushed operations to one datatype through the real service and every client synced to quiescence; entry modes create/subscribe/subscribe-or-create and late subscribers occur; distinct command sequences",
-                slices=[S("svc", 90, 1400, ["corr", "sconverge", "loginv", "no_panic"])], assumptions=SERVICE_ASSUMPTIONS),
+                slices=[S("svc", 90, 1400, ["corr", "sconverge", "loginv", "no_panic"]), S("fault", 40, 500, ["corr", "sconverge", "loginv"])], assumptions=SERVICE_ASSUMPTIONS),
     "C07": dict(lean=["Orda.Props.C07"], rule="non-trivial: the case contains ≥1 message fault (duplicate request, dropped response, response applied after later exchanges) on a datatype that ≥2 clients push to; distinct command sequences",
                 slices=[S("fault", 90, 1400, ["corr", "sconverge", "loginv", "no_panic"])], assumptions=SERVICE_ASSUMPTIONS),
     "C08": dict(lean=["Orda.Props.C08"], rule="each case is one scenario re-run with ONE database command of ONE request failing (mode fail) or being the last before the database goes away and the server restarts (mode crash), followed by retries of all clients; non-trivial: the faulted command belongs to a request that pushes operations; distinct = distinct (scenario, request, command, mode)",
